@@ -111,7 +111,10 @@ def make_data(cfg):
         rows.insert(k, (float(gas.mean()), np.nan))
     g = np.array([r[0] for r in rows])
     p = np.array([r[1] for r in rows])
-    return pd.DataFrame({"Days": np.arange(len(rows)), "Gas": g, "Pressure": p, "Extra": 1.0})
+    # further columns as in a real export, with gaps of their own on days that do have gas and a pressure reading
+    extra = np.ones(len(rows))
+    extra[rs.rand(len(rows)) < 0.15] = np.nan
+    return pd.DataFrame({"Days": np.arange(len(rows)), "Gas": g, "Pressure": p, "Extra": extra, "Comment": [None if i % 5 else "shut-in?" for i in range(len(rows))]})
 
 
 def expected_inputs(data, cfg):
